@@ -287,6 +287,7 @@ func (w *World) quiesce() {
 	for w.admChecked < len(w.subs) && w.subs[w.admChecked].admissionChecked {
 		w.admChecked++
 	}
+	w.checkRootsAgree()
 	w.orc.checkAcks()
 	w.orc.checkPools()
 	w.orc.checkStops()
